@@ -513,7 +513,7 @@ impl Property for C18 {
         (proptest::collection::vec(op_strategy(), 0..=n), any::<bool>()).prop_map(|(ops, int)| Case { ops, int }).boxed()
     }
     fn quota(tier: Tier) -> u64 {
-        tier.pick(400_000, 8_000_000)
+        tier.pick(4_000_000, 60_000_000)
     }
     fn rule() -> String {
         "Histories of 0-16 (thorough 0-30) public constructor / mutator calls on one Polygon<f64> or Polygon<i32> and one Rect: \
